@@ -100,7 +100,7 @@ func Analyze(P *Program, fn *ssa.Function, opts *AnalyzeOpts) *Summary {
 	if opts != nil && opts.Pre != nil {
 		opts.Pre(in, st, params)
 	}
-	sum := &Summary{Fn: fn, Params: params}
+	sum := &Summary{Fn: fn, Params: params, Init: st.clone()}
 	ret, out := in.Call(fn, params, nil, st)
 	sum.Ret, sum.Out, sum.Events, sum.Failed = ret, out, in.events, in.Fail
 	sum.in = in
@@ -142,7 +142,7 @@ func (s *Summary) WrittenCells() []string {
 				out = append(out, fmt.Sprintf("%s[%s]?", o.Name, k))
 				continue
 			}
-			init := s.in.leafInit(newState(), o, k, t)
+			init := s.in.loadPath(s.Init, o, k, t)
 			if !sameVal(init, v) {
 				out = append(out, fmt.Sprintf("%s[%s]", o.Name, k))
 			}
